@@ -11,6 +11,7 @@ and S1 itself: every entry decodes, no RQ, no W other than 0404 fragments, nothi
 from __future__ import annotations
 
 import asyncio
+import json
 import datetime as _dt
 import gc
 import io
@@ -275,6 +276,17 @@ async def run(ctx) -> None:
                     n += 1
             return n >= 2  # itself and at least one partner
 
+        def held_only_by_unlisted_addressee(d) -> bool:
+            """the original gateway holds this packet only in the store of a device that is not its source (a fakeable device
+            keeps what is addressed to it), and the snapshot's schema does not list that device (its own packets have expired):
+            a fresh gateway, eavesdropping off, creates no device for a mere destination address (KF13)"""
+            line = A[1][d]
+            parts = line.split(" # ")[0].split()
+            src = next((x for x in parts[2:6] if x[2:3] == ":" and x[:2] != "--"), None)
+            holders = [dev for dev in gwy.devices if any(repr(m._pkt)[:26] == d for m in dev._msg_db)]
+            listed = json.dumps(A[0])
+            return bool(holders) and all(h.id != src and h.id not in listed for h in holders)
+
         lost_keys = [x.split(" ", 1)[0] for x in lost]
         if lost or new or chg:
             kind = "lost" if lost else ("added" if new else "changed")
@@ -288,6 +300,8 @@ async def run(ctx) -> None:
                 kind = "array_fragment_merge"  # ... where they displace the packet that was there
             if kind == "lost" and reclassed:
                 kind = "lost_rejected_by_eavesdropped_class"
+            elif kind == "lost" and not eaves and g is not gwy and all(held_only_by_unlisted_addressee(d) for d in lost_keys):
+                kind = "lost_held_only_by_unlisted_addressee"
             if kind == "changed" and all(A[1][d].split(" # ")[0] == B[1][d].split(" # ")[0] for d in chg):  # (other codes)
                 kind = "reinterpreted"  # same frames, but the later snapshot gives one another context (the '# hdr (ctx)' hint)
             first = (lost or new or [f"{chg[0]} {A[1][chg[0]]}"])[0].split(" ")
@@ -299,6 +313,11 @@ async def run(ctx) -> None:
             if "downtime" in what or any(expired_now(g, d, l) or expired_now(gwy, d, l) for d, l in A[1].items()):
                 # which devices are 'present' depends on live packets: if some of the snapshot's packets have expired by now ...
                 ctx.probe("schema_differs_after_downtime_(expiry,_not_judged)")
+            elif hc.get("hist_topology_edit"):
+                # C16 quantifies over histories derived from the logs by prefixes, splices, deletions and duplications; an edited
+                # 000C / 0005 / zone index can state a contradictory topology (one device in two roles), and which statement wins
+                # then depends on the order -- that is C15's subject (the inconsistency must be reported), not a fixpoint failure
+                ctx.probe("schema_differs_in_a_history_with_an_edited_topology_(not_judged)")
             else:
                 ctx.violate("C16", "schema_differs", tag, f"{where}: {what}: the schema differs: {sdiff(A[0], B[0])}")
 
